@@ -98,7 +98,9 @@ structure LawfulUCmp (c : UCmp) : Prop where
   eq_of  : ∀ a b, c.cmp a b = .eq → a = b
   gt_iff : ∀ a b, c.cmp a b = .gt ↔ c.cmp b a = .lt
   trans  : ∀ a b d, c.cmp a b = .lt → c.cmp b d = .lt → c.cmp a d = .lt
-  sep_ok : ∀ a b d, c.cmp a b = .lt → c.sep a b = some d → c.cmp a d ≠ .gt ∧ c.cmp d b = .lt
+  /-- the contract "a ≤ x < b whenever a non-nil x is returned" is read for every call the DB makes,
+  i.e. for a ≤ b; for a = b it forces nil -/
+  sep_ok : ∀ a b d, c.cmp a b ≠ .gt → c.sep a b = some d → c.cmp a d ≠ .gt ∧ c.cmp d b = .lt
   succ_ok : ∀ b d, c.succ b = some d → c.cmp b d ≠ .gt
 
 end GoLevel
